@@ -2779,6 +2779,60 @@ impl<'a, 'd> Gen<'a, 'd> {
                     }
                 }
             }
+            // containers of a type parameter built and taken apart inside the generic function:
+            // `let a = [p, p]; let q = array_get(a, 1);` (also Vec / Ref / tuple), annotated or not;
+            // `q` is one more value of the parameter's type for the rest of the body
+            if tparams > 0 && self.d.chance(if self.cfg.focus == Focus::Generics { 110 } else { 60 }) {
+                let k = self.d.below(tparams as usize) as u32;
+                let tp = Ty::Param(k);
+                let src = self.param_var(&tp);
+                if matches!(src, Expr::Var(_)) {
+                    let annot = self.d.bool();
+                    let kind = self.d.below(4);
+                    let (cty, make, take) = match kind {
+                        0 => {
+                            let n = 1 + self.d.below(3) as u32;
+                            let i = self.d.below(n as usize) as i128;
+                            (
+                                Ty::Array(Box::new(tp.clone()), n),
+                                Expr::ArrayLit((0..n).map(|_| src.clone()).collect()),
+                                (Builtin::ArrayGet, Some(Expr::Int(IK::I32, i, false))),
+                            )
+                        }
+                        1 => (
+                            Ty::Vec(Box::new(tp.clone())),
+                            Expr::Call(
+                                Callee::Builtin(Builtin::VecPush),
+                                vec![Expr::Call(Callee::Builtin(Builtin::VecNew), vec![]), src.clone()],
+                            ),
+                            (Builtin::VecGet, Some(Expr::Int(IK::I32, 0, false))),
+                        ),
+                        2 => (Ty::Ref(Box::new(tp.clone())), Expr::Call(Callee::Builtin(Builtin::RefNew), vec![src.clone()]), (Builtin::RefGet, None)),
+                        _ => (
+                            Ty::Tuple(vec![Ty::i32(), tp.clone()]),
+                            Expr::Tuple(vec![Expr::Int(IK::I32, 7, false), src.clone()]),
+                            (Builtin::RefGet, None),
+                        ),
+                    };
+                    // (a Vec needs its annotation: `vec_new()` alone does not fix the element type for every reader)
+                    let annot = annot || kind == 1;
+                    let c = self.fresh_named("p", cty.clone());
+                    pre.push(Stmt::Let(Pat::Var(c), if annot { Some(cty.clone()) } else { None }, make));
+                    let q = self.fresh_named("p", tp.clone());
+                    let get = if kind == 3 {
+                        Expr::Proj(Box::new(Expr::Var(c)), 1)
+                    } else {
+                        let mut args = vec![Expr::Var(c)];
+                        if let Some(i) = take.1 {
+                            args.push(i);
+                        }
+                        Expr::Call(Callee::Builtin(take.0), args)
+                    };
+                    pre.push(Stmt::Let(Pat::Var(q), if self.d.bool() { Some(tp.clone()) } else { None }, get));
+                    self.label("generic-fn:container-of-param");
+                    self.label(["generic-fn:array-of-param", "generic-fn:vec-of-param", "generic-fn:ref-of-param", "generic-fn:tuple-of-param"][kind]);
+                }
+            }
             for (v, t) in params.clone() {
                 if let Ty::Dyn(tr) = t {
                     // (an earlier statement of this prologue may have shadowed the parameter)
@@ -2792,6 +2846,7 @@ impl<'a, 'd> Gen<'a, 'd> {
                     pre.extend(stmts);
                     Expr::Block(pre, fin)
                 }
+                other if !pre.is_empty() => Expr::Block(pre, Some(Box::new(other))),
                 other => other,
             };
             (ret, body)
